@@ -353,7 +353,8 @@ func c10child() {
 	lim := uint64(6 << 30)
 	_ = syscall.Setrlimit(syscall.RLIMIT_AS, &syscall.Rlimit{Cur: lim, Max: lim})
 	getUniverse()
-	tmp, _ := os.MkdirTemp("", "c10child")
+	// scratch space inside the parent's scratch directory, so that a child that dies leaves nothing behind
+	tmp, _ := os.MkdirTemp(os.Getenv("C10_TMP"), "c10child")
 	defer os.RemoveAll(tmp)
 	bases := map[string][]byte{}
 	in := bufio.NewScanner(os.Stdin)
@@ -396,11 +397,11 @@ func allocBound(n int) (load, data, total uint64) {
 }
 
 // runShard feeds jobs[lo:hi] to child processes, restarting after a death.
-func runShard(self string, basePaths []string, jobs []mutation, idxs []int, results []*jobResult, deaths *[]hostileFinding, mu *sync.Mutex) {
+func runShard(self, scratchDir string, basePaths []string, jobs []mutation, idxs []int, results []*jobResult, deaths *[]hostileFinding, mu *sync.Mutex) {
 	pos := 0
 	for pos < len(idxs) {
 		cmd := exec.Command(self, "-mode", "c10child", "-prop", "C10")
-		cmd.Env = append(os.Environ(), "GOMEMLIMIT=3GiB")
+		cmd.Env = append(os.Environ(), "GOMEMLIMIT=3GiB", "C10_TMP="+scratchDir)
 		stdin, _ := cmd.StdinPipe()
 		stdout, _ := cmd.StdoutPipe()
 		var stderr bytes.Buffer
@@ -600,7 +601,7 @@ func decideHostile(prop, tier string, seed uint64, scratch, replays string) *Out
 		wg.Add(1)
 		go func(idxs []int) {
 			defer wg.Done()
-			runShard(self, basePaths, jobs, idxs, results, &deaths, &mu)
+			runShard(self, scratch, basePaths, jobs, idxs, results, &deaths, &mu)
 		}(idxs)
 	}
 	wg.Wait()
